@@ -42,7 +42,7 @@ def gen(g, count):
         leaves = [b'calories', b'fat', b'protein']
         if r.random() < 0.12:
             # white space other than blank and tab is part of a name, also at its ends, also when the name is a command-line argument
-            leaves[r.randrange(3)] = r.choice(['protein\u00a0', '\u3000fibre', 'iron\u2028', '\u0085zinc', 'salt\x0b', '\x0csugar', '\ufeffB12']).encode()
+            leaves[r.randrange(3)] = r.choice(['protein\u00a0', '\u3000fibre', 'iron\u2028', '\u0085zinc', 'salt\x0b', '\x0csugar', '\ufeffB12', 'fat%', 'cocoa %', '%dv', '100%s', 'a%!b']).encode()
         recs = []
         for _ in range(r.randint(1, 5)):
             nm = b'/'.join(g.word(2, 6, 0.15).encode() for _ in range(r.randint(1, 3)))
@@ -277,6 +277,17 @@ def stats_distances(ctx, g):
         c = app(['stats'], files, g=gopt, kind='stats distances', disk=True, tz=tz, today_date=today)
         c.meta.update({'first': first, 'last': last, 'today': today, 'L': L})
         cases.append(c)
+    # every layout with one- and two-digit days and months among the first, the last and the current date
+    for L in LAYOUTS:
+        for first, last, today in (((2024, 1, 5), (2024, 11, 12), (2024, 11, 20)), ((2021, 12, 31), (2022, 1, 1), (2022, 10, 9)), ((2021, 10, 10), (2021, 2, 3), (2021, 3, 1))):
+            first, last, today = datetime.date(*first), datetime.date(*last), datetime.date(*today)
+            files = {b'food.yaml': b'', b'log.yaml': ('%s:\n  a: 1\n%s:\n  b: 2\n' % (fmt_date_layout(first, L), fmt_date_layout(last, L))).encode()}
+            gopt = {'today': fmt_date_layout(today, L), 'noColor': True}
+            if L != '2006/01/02':
+                gopt['dateFormat'] = L
+            c = app(['stats'], files, g=gopt, kind='stats distances', disk=True)
+            c.meta.update({'first': first, 'last': last, 'today': today, 'L': L})
+            cases.append(c)
     impl, model = run_apps(ctx, cases)
     for c in cases:
         st = out_of(impl[c.id]).decode('utf-8', 'replace').split('\n')
